@@ -1,5 +1,6 @@
-(* Props/C20Known.v — refutations: for each flag claimed `true` in Actual/CfgToolActual.v a concrete input on which
-   the faithful model violates the specification (closed by vm_compute).  The same inputs are in corpus/C20 and are
+(* Props/C20Known.v — refutations: for each finding still listed as known a concrete input on which the faithful model
+   violates the specification (closed by vm_compute); for each finding recorded as fixed a regression Example: the old
+   witness now meets the specification under the claimed vector.  The same inputs are in corpus/C20 and are
    replayed on the real CLI on every run. *)
 From TL Require Import Lib.Base Lib.GenTypes Model.CfgTypes Gen.CfgToolGen Model.CfgMerge Model.CfgCli Model.CfgToolRun
      Actual.CfgToolActual.
@@ -8,12 +9,13 @@ From Coq Require Import ZArith.
 Definition std : list (string * string) := match lookup "standard" presets with Some r => r | None => [] end.
 Definition after (q : cquirks) (E : list string) : list string := result_file E (init_config q "standard" E).
 
-(* the user wrote `magic_numbers:`; init-config appends `magic-numbers:` and the loaders now find the template's value *)
+(* FIXED (repo commit 2b4908f): the user wrote `magic_numbers:`; init-config used to append `magic-numbers:`, which shadowed
+   the user's value.  Regression: under the vector claimed for the current tree the old witness meets the whole specification. *)
 Definition w_underscore : list string := ["magic_numbers:"; "  allowed_numbers: [4242]"; ""].
-Theorem C20_missing_by_raw_key_refuted :
-  struct_r (analyse w_underscore) = true /\ in_effect_b w_underscore (after cfgtool_actual w_underscore) = false
-  /\ only_missing_b w_underscore (after cfgtool_actual w_underscore) = false
-  /\ in_effect_b w_underscore (after (with_flag 0 cfgtool_actual) w_underscore) = true.
+Example C20_missing_by_raw_key_fixed :
+  struct_r (analyse w_underscore) = true /\ in_effect_b w_underscore (after cfgtool_actual w_underscore) = true
+  /\ spec_ok std w_underscore (after cfgtool_actual w_underscore) (after cfgtool_actual (after cfgtool_actual w_underscore)) = true
+  /\ smem "magic-numbers" (root_keys (analyse (after cfgtool_actual w_underscore))) = false.
 Proof. vm_compute. repeat split; reflexivity. Qed.
 
 (* a flow-style root: block text is appended after the closing brace; the result is no YAML document *)
@@ -34,18 +36,14 @@ Theorem C20_insert_mid_entry_refuted :
   /\ spec_ok std w_mid_entry (after (with_flag 2 cfgtool_actual) w_mid_entry) (after (with_flag 2 cfgtool_actual) w_mid_entry) = true.
 Proof. vm_compute. repeat split; reflexivity. Qed.
 
-(* `config set my-key 5` is accepted and saved, `config get my-key` does not find it (loading renames it my_key) *)
+(* FIXED (repo commit 5897da0): `config set my-key 5` was saved but `config get my-key` did not find it; `config set log-level
+   debug` bypassed the log_level validator and left a file that failed validation on every load.  Regression: under the claimed
+   vector both old witnesses meet the trace specification, and the second one is rejected. *)
 Definition w_get : list cmd := [CSet "my-key" "5"; CGet "my-key"].
-Theorem C20_cli_raw_key_get_refuted :
-  forallb (fun b => b) (spec_trace [] None w_get (run cfgtool_actual false None w_get)) = false
-  /\ forallb (fun b => b) (spec_trace [] None w_get (run (with_flag 3 cfgtool_actual) false None w_get)) = true.
-Proof. vm_compute. split; reflexivity. Qed.
-
-(* `config set log-level debug` bypasses the log_level validator; the saved file no longer validates when loaded:
-   with --config every later command exits 2, without it the whole file is silently ignored *)
 Definition w_loglevel : list cmd := [CSet "log-level" "debug"; CGet "greeting"].
-Theorem C20_cli_raw_key_validation_refuted :
-  map o_rc (run cfgtool_actual true None w_loglevel) = [0; load_error_exit]
-  /\ forallb (fun b => b) (spec_trace [] None w_loglevel (run cfgtool_actual true None w_loglevel)) = false
-  /\ map o_rc (run (with_flag 3 cfgtool_actual) true None w_loglevel) = [set_reject_exit; 0].
+Example C20_cli_raw_key_fixed :
+  forallb (fun b => b) (spec_trace [] None w_get (run cfgtool_actual false None w_get)) = true
+  /\ map o_out (run cfgtool_actual false None w_get) = [Some "Set my_key = 5"; Some "5"]
+  /\ forallb (fun b => b) (spec_trace [] None w_loglevel (run cfgtool_actual true None w_loglevel)) = true
+  /\ map o_rc (run cfgtool_actual true None w_loglevel) = [set_reject_exit; 0].
 Proof. vm_compute. repeat split; reflexivity. Qed.
